@@ -390,7 +390,10 @@ def _stage(lf, exp, case):
                 gp = numpy.array([[gp[x][y] for y in states] for x in states], float)
                 p = S.expm(q * exp.length[e] * r)
                 if not numpy.allclose(gp, p, rtol=1e-8, atol=1e-11):
-                    return "psub-differs"
+                    # rounding-level disagreement of the exponentiator (accepted eigendecomposition of a nearly
+                    # defective Q, cf. finding C05-K2) vs. a grossly wrong transition matrix
+                    err = float(numpy.abs(gp - p).max())
+                    return "psub-differs" + ("[<1e-5]" if err < 1e-5 else "")
         return "sum-product-differs"
     except Exception as e:  # diagnosis only
         return f"stage-unknown({type(e).__name__})"
